@@ -51,6 +51,8 @@ IDIOMS = {
     'I10': '&sha256d::Hash::hash(&X)[A..B]  =>  &idiom_sha256d_slice(&X, A, B)   (Index<Range> on the hash newtype)',
     'I11': 'X.to_le_bytes()  =>  idiom_le_bytes(X)   (result as Vec<u8>; only ever passed to extend())',
     'I12': 'X.try_into().expect(MSG)  =>  idiom_try_into_expect(X)   (slice -> [u8; N]; the panic becomes the precondition len == N)',
+    'I13': 'X.borrow_mut()  =>  X.as_mut_slice()   (BorrowMut<[u8]> for Vec<u8> / [u8; N] is the whole buffer as a slice)',
+    'I14': 'T::from(E)  =>  T::from_<ty>(E)   (From-trait static dispatch made explicit; rustc re-checks that E has type <ty>)',
     'A1': 'abstract-expression: `expr` => havoc::<T>() (unconstrained value)',
 }
 
@@ -255,6 +257,7 @@ def build_fn(repo, blk, log):
     item_id = '%s::%s' % (container if container not in ('-', '') else rel.split('/')[-1], name)
     item_id = re.sub(r'^(impl|trait)(<[^>]*>)?\s+', '', item_id)
     item_id = re.sub(r"<[^<>]*>", '', item_id)
+    item_id = re.sub(r'^(\w+)\s*:[^:].*?::', r'\1::', item_id)   # `trait X: Bound` -> X
     body_rel = it.body_start - base
 
     for (word, rest, raw, tline) in blk.subs:
@@ -453,6 +456,18 @@ def apply_idiom(ed, text, base, body_rel, loops, rest, item_id, log, rel, src):
             if not h:
                 raise GenError('I12 shape mismatch: %s' % flat)
             new = 'idiom_try_into_expect(%s)' % h.group(1)
+        elif rule == 'I13':
+            h = re.match(r'^([\w\.]+)\.borrow_mut\(\)$', flat)
+            if not h:
+                raise GenError('I13 shape mismatch: %s' % flat)
+            new = '%s.as_mut_slice()' % h.group(1)
+        elif rule == 'I14':
+            h = re.match(r'^(\w+)::from\((.*)\)$', flat, re.S)
+            if not h or len(parts) != 2 or not re.match(r'^\w+$', parts[1]):
+                raise GenError('I14 shape mismatch: %s' % flat)
+            pre = re.match(r'^(\w+)::from\(', anchor)
+            b = a + pre.end()
+            new = '%s::from_%s(' % (h.group(1), parts[1])
         elif rule == 'I11':
             h = re.match(r'^([\w\.]+)\.to_le_bytes\(\)$', flat)
             if not h:
